@@ -1161,6 +1161,13 @@ vs_inproc_init(int argc, char **argv)
   raw_copy(snap_bss, __start_lbz_bss, nb);
 }
 
+void
+vs_inproc_set_args(int argc, char **argv)
+{
+  l_argc = argc;
+  l_argv = argv;
+}
+
 /* run one execution with vs_cfg; returns when every pool thread is back */
 void
 vs_inproc_run(void)
